@@ -10,7 +10,8 @@ CONSTANTS
  KF_GuardOnVisibleOnly = FALSE
 KF_SurvivorsOnly = FALSE
 KF_RetryUnguarded = FALSE
+KF_CloneSwap = FALSE
 MaxRetry = 2
 INVARIANT C07_OneAtATime
-PROPERTIES C07_NoOpenAfterClose C07_GcStep C07_NoOpenOnBreak C12_GameBlindFixed C12_GameBlindAtOpen C08_PauseIff C08_SetUpEnough
+PROPERTIES C07_NoOpenAfterClose C07_GcStep C07_NoOpenOnBreak C12_GameBlindFixed C12_GameBlindAtOpen C01_ChipsOnlyLostAtSettle C03_SitInSticks C08_PauseIff C08_SetUpEnough
 CHECK_DEADLOCK FALSE
